@@ -15,7 +15,7 @@ OVERLAY = {
 }
 DELAYS = [0, 0, 1500, 4000]          # microseconds added to every StoreLogs of the raft log store after a (re)start
 FAULTS = ["kill", "kill-after-ack", "kill-during-post", "lost-answer", "snapshot", "pause",
-          "round-kill", "round-pause", "round-snapshot", "restart-immediate-retry", "cut-inside-batch"]
+          "round-kill", "round-pause", "round-snapshot", "restart-immediate-retry", "cut-inside-batch", "log-store-failure"]
 
 
 def gen_scenario(rng, ident):
@@ -46,6 +46,7 @@ def gen_scenario(rng, ident):
         elif kind == "lost-answer": tok = "LA:%d" % k
         elif kind == "snapshot": tok = "S"
         elif kind == "pause": tok = "Z:%d" % rng.randint(20, 300)
+        elif kind == "log-store-failure": tok = "FS:%d" % k
         elif kind == "cut-inside-batch": tok = "CB:%d:%d:%d:%d:0" % (k, rng.randrange(5), rng.choice([1, 2]), rng.choice([0, 0, 1, 2]))
         elif kind == "restart-immediate-retry": tok = "RI:%d:%d:0" % (k, rng.choice([1, 2]))
         elif kind == "round-kill": tok = "R:%d:kill:%d:%d" % (rng.randint(2, 5), rng.randint(0, 6000), d)
@@ -485,6 +486,8 @@ def run(ck, replay):
         for e in r["events"]:
             if e.startswith("CB:"):
                 continue
+            if e.startswith("FS:"):
+                e = ":".join(e.split(":")[:3])       # FS:<used|unused>:first=<first answer>
             if e.startswith("RI:"):
                 e = ":".join(e.split(":")[:3])       # RI:mode=<m>:<acked|refused|failed>
             dist["steps_executed"][e] = dist["steps_executed"].get(e, 0) + 1
@@ -521,7 +524,8 @@ def run(ck, replay):
                       "differing by 1: small numbers, top bit set (2^63+2^62..), across 2^53, towards 2^64-1), every POST repeated with the same id until "
                       "HTTP 200; 1-6 faults per scenario out of: SIGKILL idle / the moment an acknowledgement arrives / a scripted number of microseconds after a request was "
                       "written / during a concurrent round, answer dropped on the client side, forced /snapshot (idle or during a round), SIGSTOP-SIGCONT (idle or during a "
-                      "round), RI = answer dropped + SIGKILL at that moment + restart WITHOUT waiting for the raft Barrier + the same body repeated every 200 us (D14); "
+                      "round), FS = the raft log store fails once under the next client command (raft answers Apply with the error and steps down, the POST is answered 5xx, "
+                      "the client repeats it at the same node), RI = answer dropped + SIGKILL at that moment + restart WITHOUT waiting for the raft Barrier + the same body repeated every 200 us (D14); "
                       "restart on the same directories with 0-4 ms delay in front of the raft log store; plus a grid of D14 shapes (sessions inside/outside a snapshot, "
                       "0-900 entries behind it, announced at leadership or when the listener is up, optional 200 us delay in front of FSM.Apply). Every client keeps a LIVE "
                       "long-poll reader open from its JOIN on (reconnecting with the last id it saw after restarts and superseded streams, paused only during its own G "
